@@ -12,9 +12,9 @@ import vrun
 from gen import Gen
 from common import cerberus, real_error, canon_errors
 
-LEVEL = "exploration"
-COQ_FILES = []
-FACT_GROUPS = ["F18"]
+LEVEL = "proof"
+COQ_FILES = ["theories/Model/Expand.v", "theories/Proofs/ExpandProofs.v", "theories/Properties/C15.v"]
+FACT_GROUPS = []
 ALLOWED_AXIOMS = []
 TRUSTED_BASE = [
     "Coq 8.16.1 kernel; Print Assumptions: closed under the global context",
@@ -132,6 +132,7 @@ def run(ctx):
     dist = collections.Counter()
     cases = 0
     distinct = set()
+    model_lines, model_jobs = [], []
     g = Gen(ctx["seed"] + 15, normalization=True, nested_bias=True)
     rng = random.Random(ctx["seed"])
     for i in range(n):
@@ -165,6 +166,16 @@ def run(ctx):
                         ok = False
                 if ok:
                     variants.append((("multi", (), "multi", [x[0] for x in sub]), s2))
+        # model-vs-code: the extracted model of expand() on every variant, against the schema the real validator exposes
+        if ctx["driver_ok"] and "rules_set_registry" not in cfg:
+            for rw, var in variants[:3] + [(None, canonical)]:
+                try:
+                    out = ["X"]
+                    common.enc_value(var, out)
+                    model_lines.append(" ".join(out))
+                    model_jobs.append((var, cfg))
+                except ValueError:
+                    pass
         for rw, var in variants:
             cases += 1
             dist[rw[0] + "@" + rw[2]] += 1
@@ -230,7 +241,19 @@ def run(ctx):
                 sig = "spaces" if rw[0] == "spaces" else "%s@%s" % (rw[0], where)
                 violations.append({"signature": sig, "what": "%s shorthand in %s: %s" % (rw[0], where, d),
                                    "replay": {"canonical": common.jval(rules), "variant": common.jval(var), "where": where, "documents": [common.jval(doc)]}})
-    return {"violations": violations, "cases": cases, "nontrivial": len(distinct), "model_cases": 0, "disagreements_checked": 0,
+    modelled = 0
+    if model_lines:
+        for (var, cfg2), m in zip(model_jobs, common.run_driver_parallel(model_lines)):
+            try:
+                v = pool.PoolValidator(copy.deepcopy(var), **copy.deepcopy(cfg2))
+            except Exception:
+                continue
+            modelled += 1
+            real = common.canon_val(common.jval(dict(v.schema)))
+            if m.get("r") != "ok" or common.canon_val(m["schema"]) != real:
+                violations.append({"signature": "model-vs-code:expand", "what": "expand(): model %s, validator.schema %s" % (json.dumps(m)[:300], real[:300]),
+                                   "replay": {"canonical": common.jval(var), "variant": common.jval(var), "config": common.jval(cfg2), "documents": []}})
+    return {"violations": violations, "cases": cases, "nontrivial": len(distinct), "model_cases": modelled, "disagreements_checked": modelled,
             "samples": samples, "distribution": dict(dist),
             "rule": "canonical schemas (C01/C02 generators + planted homogeneous *of rules, incl. rules whose name contains '_'); every eligible position "
                     "(field rules, dict-/list-schema, keysrules, valuesrules, items members, *of definitions, allow_unknown rule sets at rule and validator level, "
